@@ -111,7 +111,9 @@ class BlobDownloader:
             log.debug("downloaded %s", blob_hash[:8])
             return blob
         finally:
-            blob.close()
+            # only the writers of unfinished attempts are ours to close: the readers belong to whoever is
+            # reading the (now verified) blob, e.g. the blob server sending it to another peer
+            blob.close_writers()
             if self.loop.is_running():
                 self.loop.call_soon(self.cleanup_active)
 
